@@ -17,5 +17,6 @@ MC_Msgs == {<<>>, <<104,105>>}
 MC_MaxExtra == 1
 MC_EMIT == TRUE
 MC_ListOrders == {"asc"}
+MC_BatchAtEnd == FALSE
 
 ====
